@@ -29,6 +29,25 @@ Proof.
   Transparent two64 two32. unfold two64, two32, tmax in *. lia. Opaque two64 two32.
 Qed.
 
+(* the window-sum loop computes the exact sums of the buckets' counters as long as they stay below
+   2^64 (the model's la_sum adds in Z: a uint64 counter cannot wrap below 2^64 completions) *)
+Fixpoint sum_fst (l : list (Z * Z)) : Z := match l with [] => 0 | (a, _) :: r => a + sum_fst r end.
+Fixpoint sum_snd (l : list (Z * Z)) : Z := match l with [] => 0 | (_, b) :: r => b + sum_snd r end.
+
+Lemma sum_loop_exact l : forall s t,
+  Forall (fun p => 0 <= fst p /\ 0 <= snd p) l -> 0 <= s -> 0 <= t ->
+  s + sum_fst l < two64 -> t + sum_snd l < two64 ->
+  sum_loop l (s, t) = (s + sum_fst l, t + sum_snd l).
+Proof.
+  induction l as [|[a b] r IH]; intros s t Hl Hs Ht H1 H2; cbn [sum_loop sum_fst sum_snd fst snd] in *.
+  - f_equal; lia.
+  - inversion Hl as [|x y [Ha Hb] Hr]; subst. cbn [fst snd] in Ha, Hb.
+    assert (Hfr : 0 <= sum_fst r) by (clear -Hr; induction Hr as [|[x y] r' [Hx _] _ IHr]; cbn [sum_fst fst] in *; lia).
+    assert (Hsr : 0 <= sum_snd r) by (clear -Hr; induction Hr as [|[x y] r' [_ Hy] _ IHr]; cbn [sum_snd snd] in *; lia).
+    unfold sum_step. rewrite !u64_id by (unfold in_u64; lia).
+    rewrite IH by (try assumption; lia). f_equal; lia.
+Qed.
+
 (* getRuleStatSlidingWindowBucketCount is the bucket count of rule_cfg *)
 Lemma rule_cfg_bucket_count s th minamt retry probe maxrt interval raw :
   gn (rule_cfg s th minamt retry probe maxrt interval raw) = bucket_count interval raw
